@@ -85,6 +85,9 @@ type Block struct {
 	// Numbered (heading, DOCX): the heading paragraph also carries the numbering of list List at level Depth
 	// ("1.2 Scope"); it is a heading all the same
 	Numbered bool `json:"numbered,omitempty"`
+	// NumOff (paragraph or heading that is not Numbered, DOCX): the paragraph carries <w:numPr> with numId 0, which
+	// removes numbering (17.9.18: 0 never names a numbering definition); it is no list item
+	NumOff bool `json:"num_off,omitempty"`
 }
 
 // List kinds (per level).
